@@ -351,7 +351,9 @@ def handle_refutation(prop, r, ref, res, confirmed, known, baseline, violations,
                        "could not be realised natively (pre-state or interference not reachable by replay)")
         with open(os.path.join(ROOT, path), "w") as f:
             json.dump(doc, f, indent=1, default=str)
-        violations.append(f"VIOLATION property={prop} replay={path} no-failing-input-found")
+        line = f"VIOLATION property={prop} replay={path} no-failing-input-found"
+        if line not in violations:
+            violations.append(line)
     else:
         undecided.append((r["qualname"], ob + " (refuted, replay did not confirm, not in baseline)"))
 
